@@ -2,7 +2,6 @@ package c20
 
 import (
 	"bytes"
-	"errors"
 	"fmt"
 	"testing"
 
@@ -176,13 +175,17 @@ func checkISeq(ctx *pbt.Ctx, c ISeq) error {
 			ctx.Label("via:specific:" + class)
 			switch class {
 			case "outputs":
-				if !errors.Is(err, bt.ErrOutputsNotEmpty) {
-					return fmt.Errorf("step %d: InscribeSpecificOrdinal on a transaction that already has an output returned %v, documented: ErrOutputsNotEmpty", si, err)
+				// the function's documentation names ErrOutputsNotEmpty; the property's inscription clause is the
+				// round trip of a COMPLETED inscription, so a refusal (with whatever error) is not judged, and
+				// neither is an implementation that copes with existing outputs (benign round 2)
+				if err == nil {
+					ctx.Label("via:specific:outputs:not-refused")
 				}
 				continue
 			case "zero-earlier":
-				if !errors.Is(err, bt.ErrInputSatsZero) {
-					return fmt.Errorf("step %d: InscribeSpecificOrdinal(input %d) with a zero-value earlier input (values %v) returned %v, documented: ErrInputSatsZero", si, s.InputIdx, s.InSats, err)
+				if err == nil {
+					ctx.Label("via:specific:zero-earlier:not-refused")
+					continue
 				}
 				// a refused call followed by a second attempt on the same objects: whether the second
 				// call goes through is not asserted; a call that does is held to the documented result
@@ -205,9 +208,6 @@ func checkISeq(ctx *pbt.Ctx, c ISeq) error {
 				}
 				ctx.Label("via:specific:retry-after-zero-earlier:completed")
 			case "zero-earlier+outputs":
-				if !errors.Is(err, bt.ErrInputSatsZero) && !errors.Is(err, bt.ErrOutputsNotEmpty) {
-					return fmt.Errorf("step %d: InscribeSpecificOrdinal with a zero-value earlier input and existing outputs returned %v", si, err)
-				}
 				continue
 			}
 			if err != nil {
